@@ -1071,6 +1071,26 @@ def run(ctx: common.Ctx):
     elif rows:
       ctx.notes.append('orbital-range: float64 phases stay in [0, 2pi) on the realistic times; float32: ' + ' | '.join(rows))
 
+  # domain of the double model (review 3, item 4.1): it takes the floor exactly, which jnp.floor_divide does only for
+  # |x / 2pi| below ~2^49; far beyond every realistic model time the real reduction differs from the model and can leave
+  # the proved range. Recorded (notes only), never a verdict.
+  try:
+    from fractions import Fraction as _Fr
+    import jax.numpy as _jnp
+    p_ = TWO_PI
+    rows_ = []
+    for dec in (12.0, 14.0, 15.5, 17.0):
+      xs_ = (10.0 ** dec) * (1.0 + rng.random(200))
+      got = np.asarray(_jnp.asarray(xs_) - _jnp.floor_divide(_jnp.asarray(xs_), p_) * p_)
+      bad = 0
+      for xv, gv in zip(xs_, got):
+        q = (_Fr(float(xv)) / _Fr(p_)).__floor__()
+        want = float(np.float64(xv) - np.float64(float(q)) * np.float64(p_)) if abs(q) < 2 ** 53 else None
+        bad += int(want is None or want != float(gv))
+      rows_.append(f'|x| ~ 1e{dec:g}: {bad}/200 differ from the exact-floor double model, {int(((got < 0) | (got >= p_ * (1 + 4e-16))).sum())}/200 outside [0, 2pi]')
+    ctx.notes.append('domain of the orbital-phase double model (exact floor; the claim is for |x / 2pi| < 2^49): ' + '; '.join(rows_))
+  except Exception as e:  # pylint: disable=broad-except
+    ctx.notes.append(f'domain probe of the orbital-phase double model not run: {type(e).__name__}')
   # calendar part
   ncal = ctx.n(400, 5000)
   corner = [(2000, 2, 29, 23, 59), (1900, 2, 28, 0, 0), (2024, 12, 31, 23, 59), (2023, 12, 31, 23, 59),
